@@ -23,13 +23,15 @@ def run(chk, ctx):
     for run_ in all_runs(chk, ctx):
         it = run_.interp
         multi = multipass(run_)
-        for rec in it.yields:
+        for rec in recs(it):
             st, cons = rec.state, ycons(run_, rec)
+            if rec.early and rec.kind == "EndReverse":
+                continue
             if rec.kind == "Forward":
                 b = rec.arg(1, "n1")
                 if is_lin(b):
                     tri(chk, "C08.N-FWD", cons, prove_eq(st, N - b), run_, rec, "self._n - n1")
-                else:
+                elif not rec.early:
                     chk.decide("C08.N-FWD", cons, None, "n1 is not an integer term", rel=run_.rel, node=rec.node)
             elif rec.kind in ("Copy", "Move"):
                 x, to = rec.arg(0, "n"), rec.arg(2, "to_storage")
@@ -37,11 +39,12 @@ def run(chk, ctx):
                     continue
                 hook = it.hooks.get("load_kind")
                 if hook and hook(it, rec, st) in ("A", "?") and run_.owner != "RevolveCheckpointSchedule":
-                    chk.note(f"{cons}: adjoint-dependency checkpoint load, no forward state defined (exempt from N-LOAD)")
+                    if not rec.early:
+                        chk.note(f"{cons}: adjoint-dependency checkpoint load, no forward state defined (exempt from N-LOAD)")
                     continue
                 if is_lin(x):
                     tri(chk, "C08.N-LOAD", cons, prove_eq(st, N - x), run_, rec, "self._n - loaded step")
-                else:
+                elif not rec.early:
                     chk.decide("C08.N-LOAD", cons, None, "step is not an integer term", rel=run_.rel, node=rec.node)
             elif rec.kind == "Reverse":
                 hi, lo = rec.arg(0, "n1"), rec.arg(1, "n0")
@@ -57,7 +60,7 @@ def run(chk, ctx):
                         continue
                     tri(chk, "C08.R-REV", cons, a, run_, rec, "hi - (max_n - r_before)")
                     tri(chk, "C08.R-REV", cons, b, run_, rec, "r - (max_n - lo)")
-                else:
+                elif not rec.early:
                     chk.decide("C08.R-REV", cons, None, "non-integer bounds", rel=run_.rel, node=rec.node)
             elif rec.kind == "EndReverse":
                 if multi:
